@@ -350,6 +350,44 @@ func hasThunk(v interface{}) bool {
 	return false
 }
 
+// hasNestedThunk: some deferred value yields a func directly (another deferred value, or a func of another signature).
+func hasNestedThunk(v interface{}) bool {
+	switch x := v.(type) {
+	case []interface{}:
+		for _, e := range x {
+			if hasNestedThunk(e) {
+				return true
+			}
+		}
+	case map[string]interface{}:
+		if t, ok := x["$thunk"].(map[string]interface{}); ok {
+			if inner, ok := t["v"].(map[string]interface{}); ok {
+				if _, ok := inner["$thunk"]; ok {
+					return true
+				}
+				if g, ok := inner["$go"]; ok && g == "badfunc" {
+					return true
+				}
+			}
+		}
+		for _, e := range x {
+			if hasNestedThunk(e) {
+				return true
+			}
+		}
+	}
+	return false
+}
+
+func worldHasNestedThunk(w *World) bool {
+	for _, o := range w.Objects {
+		if hasNestedThunk(map[string]interface{}(o.Fields)) {
+			return true
+		}
+	}
+	return hasNestedThunk(map[string]interface{}(w.Root))
+}
+
 func worldHasThunk(w *World) bool {
 	for _, o := range w.Objects {
 		if hasThunk(map[string]interface{}(o.Fields)) {
@@ -689,6 +727,9 @@ func One(run *hx.Run, drv *hx.Driver, m Mode, c *Case) {
 	}
 	if worldHasThunk(c.World) {
 		run.Tag("world-has-thunk")
+	}
+	if worldHasNestedThunk(c.World) {
+		run.Tag("world-has-nested-thunk")
 	}
 	if strings.Contains(c.Query, "@skip") || strings.Contains(c.Query, "@include") {
 		run.Tag("doc-has-skip-include")
